@@ -2,7 +2,7 @@
 (* Implementation-shaped model of internal/eheap/eheap.go over               *)
 (* internal/heap (GoHeap.tla), run in lock step with the abstract            *)
 (* ExpirySet (TrackZero = TRUE).  Refinement invariants tie the two.         *)
-EXTENDS ExpirySet, GoHeap
+EXTENDS ExpirySet, GoHeap, TLC
 
 VARIABLES arr,     \* Seq([id, val, index])   minHeap.ih.items (lookup map = ids of arr)
           ires,    \* implementation's result of the last call
@@ -69,8 +69,13 @@ Spec == IInit /\ [][Next]_vars
 Refines ==
   /\ {<<arr[k].id, arr[k].val>> : k \in DOMAIN arr} = {<<i, held[i]>> : i \in Held}
   /\ Len(arr) = Cardinality(Held)
-SameResult ==
-  IF last = "peekmin" THEN ires.ok = res.ok /\ ires.e = res.e /\ ires.ids \subseteq res.ids /\ (res.ids = {} <=> ires.ids = {})
-  ELSE ires = res
+SameResultOf(l, ir, r) ==
+  IF l = "peekmin" THEN ir.ok = r.ok /\ ir.e = r.e /\ ir.ids \subseteq r.ids /\ (r.ids = {} <=> ir.ids = {})
+  ELSE ir = r
+SameResult == SameResultOf(last, ires, res)
+(* for the large configuration: states are identified by <<tz, held, arr>> (VIEW) and the result comparison is *)
+(* evaluated on every transition instead (ACTION_CONSTRAINT), which TLC does before it discards known states   *)
+View           == <<tz, held, arr>>
+SameResultStep == Assert(SameResultOf(last', ires', res'), <<"SameResult violated", last', ires', res'>>)
 HeapShape == HeapOrdered(arr) /\ IndexOK(arr) /\ DistinctIds(arr)
 =============================================================================
